@@ -6,10 +6,12 @@ package c11
 import (
 	"context"
 	"fmt"
+	"io"
 	"sort"
 	"strconv"
 	"strings"
 	"sync"
+	"time"
 
 	remoteexecution "github.com/bazelbuild/remote-apis/build/bazel/remote/execution/v2"
 	"github.com/buildbarn/bb-storage/pkg/blobstore/buffer"
@@ -32,15 +34,30 @@ type universe struct {
 	byStr   map[string]int
 }
 
-func newUniverse() *universe {
+// newUniverse makes 8 digests. With aliases, two of the blobs appear under two
+// instance names ("" and "beta"): same hash and size, different digest. They
+// are neighbours in the order (ids 0,1 and 3,4), and a replica may hold one
+// without the other.
+func newUniverse(aliases bool) *universe {
 	type kv struct {
 		d digest.Digest
 		c []byte
 	}
+	nblobs := maxKeys
+	if aliases {
+		nblobs = maxKeys - 2
+	}
+	var blobs [][]byte
+	for i := 0; i < nblobs; i++ {
+		blobs = append(blobs, []byte(fmt.Sprintf("c11-object-%02d-%s", i, strings.Repeat("x", 17+i%3))))
+	}
+	sort.Slice(blobs, func(i, j int) bool { return digestOf(blobs[i]).String() < digestOf(blobs[j]).String() })
 	var all []kv
-	for i := 0; i < maxKeys; i++ {
-		c := []byte(fmt.Sprintf("c11-object-%02d-%s", i, strings.Repeat("x", 17+i%3)))
+	for i, c := range blobs {
 		all = append(all, kv{stx.CASDigest("", c), c})
+		if aliases && (i == 0 || i == 2) {
+			all = append(all, kv{stx.CASDigest("beta", c), c})
+		}
 	}
 	sort.Slice(all, func(i, j int) bool { return all[i].d.String() < all[j].d.String() })
 	u := &universe{byStr: map[string]int{}}
@@ -78,12 +95,22 @@ func (u *universe) ids(s digest.Set) []int {
 	return r
 }
 
-// values of mode (a) are small numbers; the recording replicas do not validate contents.
-func valBytes(v int) []byte { return []byte("v" + strconv.Itoa(v)) }
+// values of mode (a) are small numbers; the recording replicas do not validate
+// contents. Value 0 of key k is the blob the digest of k really names (so that
+// it can be served as a validating stream), any other value v is "v<v>".
+func (u *universe) valBytes(k, v int) []byte {
+	if v == 0 {
+		return u.content[k]
+	}
+	return []byte("v" + strconv.Itoa(v))
+}
 
 func bytesVal(b []byte) string {
 	s := string(b)
 	s = strings.TrimSuffix(s, "/c")
+	if strings.HasPrefix(s, "c11-object-") {
+		return "0"
+	}
 	if strings.HasPrefix(s, "v") {
 		if _, err := strconv.Atoi(s[1:]); err == nil {
 			return s[1:]
@@ -105,10 +132,43 @@ type call struct {
 	saidNF   bool       // get/getc: answered NOT_FOUND (absent, or an injected NOT_FOUND)
 }
 
+// streams is shared by the two replicas of a composite: the stream handed out
+// last, so that a Put failing late can wait until its source was released.
+type streams struct {
+	mu   sync.Mutex
+	last *streamReader
+}
+
+// streamReader serves a blob in chunks of 5 bytes and notes when every consumer released it.
+type streamReader struct {
+	data   []byte
+	closed chan struct{}
+	once   sync.Once
+}
+
+func (r *streamReader) Read() ([]byte, error) {
+	if len(r.data) == 0 {
+		return nil, io.EOF
+	}
+	n := 5
+	if n > len(r.data) {
+		n = len(r.data)
+	}
+	chunk := r.data[:n]
+	r.data = r.data[n:]
+	return chunk, nil
+}
+
+func (r *streamReader) Close() { r.once.Do(func() { close(r.closed) }) }
+
 type recBackend struct {
-	name   string
-	u      *universe
-	late   bool // errors of Get surface when the buffer is read (as with a remote replica)
+	name    string
+	u       *universe
+	late    bool     // errors of Get surface when the buffer is read (as with a remote replica)
+	stream  bool     // Get serves genuine blobs as validating streams (as a remote or block device backed replica)
+	putLate bool     // a failing Put consumes all data and fails at commit time, after the source was released
+	sh      *streams // shared with the other replica
+	waits   int      // late Put failures that gave up waiting for the release of the source (should stay 0)
 	mu     sync.Mutex
 	store  map[int][]byte
 	cnt    map[string]int
@@ -116,8 +176,21 @@ type recBackend struct {
 	log    []call
 }
 
-func newRecBackend(name string, u *universe, late bool) *recBackend {
-	return &recBackend{name: name, u: u, late: late, store: map[int][]byte{}, cnt: map[string]int{}, faults: map[string]codes.Code{}}
+func newRecBackend(name string, u *universe, late, stream, putLate bool, sh *streams) *recBackend {
+	return &recBackend{name: name, u: u, late: late, stream: stream, putLate: putLate, sh: sh,
+		store: map[int][]byte{}, cnt: map[string]int{}, faults: map[string]codes.Code{}}
+}
+
+// okBuffer is what Get returns for data it holds.
+func (b *recBackend) okBuffer(d digest.Digest, k int, data []byte) buffer.Buffer {
+	if b.stream && string(data) == string(b.u.content[k]) {
+		r := &streamReader{data: data, closed: make(chan struct{})}
+		b.sh.mu.Lock()
+		b.sh.last = r
+		b.sh.mu.Unlock()
+		return buffer.NewCASBufferFromChunkReader(d, r, buffer.BackendProvided(buffer.Irreparable(d)))
+	}
+	return buffer.NewValidatedBufferFromByteSlice(data)
 }
 
 // begin registers a call and returns its injected error, if any.
@@ -174,7 +247,7 @@ func (v view) Get(ctx context.Context, d digest.Digest) buffer.Buffer {
 	if eb != nil {
 		return eb
 	}
-	return buffer.NewValidatedBufferFromByteSlice(data)
+	return v.b.okBuffer(d, v.b.u.id(d), data)
 }
 
 func (v view) GetFromComposite(ctx context.Context, parent, child digest.Digest, slicer slicing.BlobSlicer) buffer.Buffer {
@@ -192,8 +265,35 @@ func (v view) Put(ctx context.Context, d digest.Digest, in buffer.Buffer) error 
 	b.mu.Lock()
 	li, ferr := b.begin("put", v.via, []int{k})
 	b.mu.Unlock()
+	if ferr != nil && !b.putLate {
+		// early failure: the data is not even looked at. (Whether the buffer
+		// was readable is still noted for the oracle: error buffers say so
+		// without being consumed.)
+		_, perr := in.GetSizeBytes()
+		in.Discard()
+		b.mu.Lock()
+		b.log[li].inputErr = perr != nil
+		b.mu.Unlock()
+		return ferr
+	}
 	// the buffer is read outside the lock: it may be one half of a cloned stream
 	data, rerr := in.ToByteSlice(1 << 20)
+	if ferr != nil {
+		// late failure: all data was accepted, the commit fails once the
+		// sender has finished and released its stream
+		b.sh.mu.Lock()
+		last := b.sh.last
+		b.sh.mu.Unlock()
+		if last != nil && rerr == nil {
+			select {
+			case <-last.closed:
+			case <-time.After(2 * time.Second):
+				b.mu.Lock()
+				b.waits++
+				b.mu.Unlock()
+			}
+		}
+	}
 	b.mu.Lock()
 	defer b.mu.Unlock()
 	b.log[li].inputErr = rerr != nil
